@@ -142,10 +142,28 @@ def gen_case(rng, simrun, backend):
         else:
             extra.append({"op": "MeasureHomodyne", "p": [gen.angle(rng)], "m": [m], "dag": False, "unit": "select",
                           "kw": {"select": float(rng.uniform(-0.4, 0.4))}})
+    if backend in ("bosonic", "fock") and rng.random() < 0.35:
+        # non-Gaussian preparations (dimensionless arguments): cat states in the complex representation, number states
+        m = int(rng.integers(n))
+        if rng.random() < 0.75:
+            extra.append({"op": "Catstate", "p": [float(rng.uniform(0.4, 0.9)), float(rng.choice([0.0, float(rng.uniform(0, 6.28))])),
+                                                    float(rng.choice([0, 1, 0.5, float(rng.uniform(0, 2))]))], "m": [m], "dag": False})
+        elif fock:
+            extra.append({"op": "Fock", "p": [int(rng.integers(1, 3))], "m": [m], "dag": False})
     cmds = spec["cmds"]
+    first = []
+    if backend == "bosonic":
+        # the bosonic backend accepts a non-Gaussian preparation only as the first operation on its mode (and no other
+        # preparation on that mode afterwards)
+        first = [e for e in extra if e["op"] == "Catstate"]
+        extra = [e for e in extra if e["op"] != "Catstate"]
+        for e in first:
+            cmds[:] = [c for c in cmds if not (c["op"] in simrun.PREPS + ["Gaussian"] and e["m"][0] in c["m"])]
+            extra = [x for x in extra if not (x["op"] == "Gaussian" and e["m"][0] in x["m"])]
     for e in extra:
         pos = int(rng.integers(len(cmds) // 2, len(cmds) + 1))
         cmds.insert(pos, e)
+    cmds[:0] = first
     # at most one measurement per mode
     seen = set()
     out = []
@@ -201,6 +219,11 @@ def observables_of(st, backend, n):
         o["bmeans"] = np.asarray(st.means())
         o["bcovs"] = np.asarray(st.covs())
         o["weights"] = np.asarray(st.weights())
+        # dimensionless observables of the bosonic state class (Fock-basis conversion of terms with complex means included)
+        o["b_fock_prob"] = [complex(st.fock_prob([k if i == 0 else 0 for i in range(n)], cutoff=6)) for k in range(4)]
+        o["b_mean_photon"] = [np.asarray(st.mean_photon(m), dtype=complex) for m in range(n)]
+        o["b_parity"] = complex(st.parity_expectation([0]))
+        o["b_reduced_dm"] = np.asarray(st.reduced_dm([n - 1], cutoff=5))
     o["mean_photon"] = [np.asarray(st.mean_photon(m, **({"cutoff": 8} if backend == "fock" and False else {})), dtype=complex)
                         for m in range(n)] if backend != "bosonic" else None
     if backend in ("gaussian", "fock"):
@@ -332,6 +355,8 @@ def run_case(case, rep, env):
             cmp("means", o1["bmeans"], o2["bmeans"], np.sqrt(ratio))
             cmp("covs", o1["bcovs"], o2["bcovs"], ratio)
             cmp("weights", o1["weights"], o2["weights"], 1.0)
+            for key in ("b_fock_prob", "b_mean_photon", "b_parity", "b_reduced_dm"):
+                cmp(key[2:], np.asarray(o1[key], dtype=complex), np.asarray(o2[key], dtype=complex), 1.0)
         if o1.get("mean_photon") is not None:
             for m, (x, y) in enumerate(zip(o1["mean_photon"], o2["mean_photon"])):
                 cmp("mean_photon", x, y, 1.0)
